@@ -7,6 +7,11 @@ every combination.  Plus, every run, a small-scope exhaustive sweep: every order
 (linear-only and with one interaction) x every graph of the other model on three variables x two orders of the other model x
 update / + .
 
+Also: constrained models (new model by fix_variables(inplace=False) / deepcopy / from_file(to_file()) / spin_to_binary(inplace=False),
+then edits of its objective and constraints), new QM / BQM models built from a result (copy, deepcopy, file round trip,
+constructor from another model, relabelled copy), and discrete models (case-level edits; new model by copy / file round trip /
+numpy-vectors round trip / relabelled copy; audit = symmetric case adjacency, both lookup orders, variable adjacency, counts).
+
 Property predicate (real code only, after EVERY line, on EVERY live model): the native adjacency read through the public API
 is well-formed - label list, `num_variables` and the native size agree; every neighbourhood is strictly increasing in
 variable index (the binary searches of the native code rely on it), without a self-loop on a SPIN / BINARY variable,
@@ -79,6 +84,40 @@ def audit(m):
         return 'num_interactions %r, iter_quadratic %d, double count %d (+%d self-loops)' % (m.num_interactions, len(seen), tot, loops)
     if m.is_linear() != (pairs == 0):
         return 'is_linear() = %r with %d interactions' % (m.is_linear(), pairs)
+    return None
+
+
+def audit_dqm(d):
+    L = list(d.variables)
+    if len(L) != d.num_variables():
+        return 'labels %r vs num_variables %r' % (L, d.num_variables())
+    npairs = ncase = 0
+    for i, u in enumerate(L):
+        nb = set(d.adj[u])
+        if d.degree(u) != len(nb):
+            return 'degree(%r) = %r but %d neighbours' % (u, d.degree(u), len(nb))
+        for v in L:
+            if v == u:
+                continue
+            def gq(x, y):
+                try:
+                    return d.get_quadratic(x, y)
+                except ValueError:          # "there is no interaction between given variables"
+                    return {}
+            q = gq(u, v)
+            qt = gq(v, u)
+            if {(b, a): x for (a, b), x in q.items()} != dict(qt):
+                return 'asymmetric: get_quadratic(%r, %r) = %r but get_quadratic(%r, %r) = %r' % (u, v, q, v, u, qt)
+            if (len(q) > 0) != (v in nb):
+                return 'adj[%r] %s %r but get_quadratic has %d entries' % (u, 'lists' if v in nb else 'does not list', v, len(q))
+            for (a, b), x in q.items():
+                if d.get_quadratic_case(u, a, v, b) != x or d.get_quadratic_case(v, b, u, a) != x:
+                    return 'get_quadratic_case(%r, %d, %r, %d) disagrees with get_quadratic: %r' % (u, a, v, b, x)
+            if L.index(v) > i and q:
+                npairs += 1; ncase += len(q)
+    if d.num_variable_interactions() != npairs or d.num_case_interactions() != ncase:
+        return 'num_variable_interactions %r / num_case_interactions %r, counted %d / %d' % (
+            d.num_variable_interactions(), d.num_case_interactions(), npairs, ncase)
     return None
 """
 exec(AUDIT_SRC)
@@ -580,6 +619,102 @@ def cqm_history(r):
     return h, site
 
 
+def dqm_history(r):
+    """discrete models: case-level edits, then a NEW native model built from the model (copy, file round trip, vectors round
+    trip, relabelled copy), then edits of the new model; every live model is audited after every line (symmetric case
+    adjacency, both lookup orders, variable adjacency, counts) and compared with an independent dict of exact fractions"""
+    lines, ns, refs = [], {'dimod': dimod, 'np': np}, {}
+    state = {'bad': None, 'site': 'DiscreteQuadraticModel construction'}
+    def do(line, site=None):
+        if state['bad']:
+            return
+        lines.append(line)
+        if site:
+            state['site'] = site
+        if TRACE:
+            if len(lines) == 1:
+                print('@@', flush=True)
+            print('#' + json.dumps(line), flush=True)
+        try:
+            exec(line, ns)
+        except Exception as e:
+            state['bad'] = ('valid call raised', '`%s` raised %s: %s' % (line, type(e).__name__, e)); return
+        for name, ref in refs.items():
+            d = ns[name]
+            try:
+                a = audit_dqm(d)
+            except Exception as e:
+                a = 'reading the model raised %s: %s' % (type(e).__name__, e)
+            if a:
+                state['bad'] = ('native adjacency malformed', 'after `%s`: %s: %s' % (line, name, a)); return
+            L = list(d.variables)
+            if L != ref['labels']:
+                state['bad'] = ('wrong polynomial', 'after `%s`: %s has variables %r, expected %r' % (line, name, L, ref['labels'])); return
+            for v in L:
+                if [F(float(x)) for x in d.get_linear(v)] != ref['lin'][v]:
+                    state['bad'] = ('wrong polynomial', 'after `%s`: %s.get_linear(%r) = %r, expected %r' % (line, name, v, list(d.get_linear(v)), [float(x) for x in ref['lin'][v]])); return
+            for i, u in enumerate(L):
+                for v in L[i + 1:]:
+                    want = {(a, b): x for (uu, a, vv, b), x in ref['quad'].items() if (uu, vv) == (u, v)}
+                    want.update({(b, a): x for (uu, a, vv, b), x in ref['quad'].items() if (uu, vv) == (v, u)})
+                    try:
+                        got_q = {k: F(float(x)) for k, x in d.get_quadratic(u, v).items()}
+                    except ValueError:
+                        got_q = {}
+                    if got_q != want:
+                        state['bad'] = ('wrong polynomial', 'after `%s`: %s.get_quadratic(%r, %r) = %r, expected %r' % (line, name, u, v, got_q, want)); return
+    def setq(name, u, a, v, b, x):
+        ref = refs[name]
+        if (v, b, u, a) in ref['quad']:
+            ref['quad'][(v, b, u, a)] = x
+        else:
+            ref['quad'][(u, a, v, b)] = x
+        do('%s.set_quadratic_case(%r, %d, %r, %d, %s)' % (name, u, a, v, b, num(x)), 'DiscreteQuadraticModel.set_quadratic_case')
+    labels = r.sample(['a', 'b', 'c', 0, 1, ('t', 1)], r.randint(2, 4))
+    ncases = {v: r.randint(1, 3) for v in labels}
+    refs['d'] = dict(labels=[], lin={}, quad={})
+    do('d = dimod.DiscreteQuadraticModel()')
+    for v in labels:
+        refs['d']['labels'].append(v); refs['d']['lin'][v] = [F(0)] * ncases[v]
+        do('d.add_variable(%d, %r)' % (ncases[v], v), 'DiscreteQuadraticModel.add_variable')
+    def edits(name, k):
+        for _ in range(k):
+            if state['bad']:
+                return
+            ref = refs[name]
+            L = ref['labels']
+            if r.random() < .3:
+                v = r.choice(L); c = r.randrange(len(ref['lin'][v])); x = q4(r)
+                ref['lin'][v][c] = x
+                do('%s.set_linear_case(%r, %d, %s)' % (name, v, c, num(x)), 'DiscreteQuadraticModel.set_linear_case')
+            else:
+                u, v = r.sample(L, 2)
+                setq(name, u, r.randrange(len(ref['lin'][u])), v, r.randrange(len(ref['lin'][v])), q4(r))
+    edits('d', r.randint(3, 9))
+    if state['bad']:
+        return lines, state
+    how = r.choice(['copy', 'file', 'vectors', 'relabel'])
+    src = refs['d']
+    new = dict(labels=list(src['labels']), lin={v: list(x) for v, x in src['lin'].items()}, quad=dict(src['quad']))
+    if how == 'copy':
+        refs['n'] = new; do('n = d.copy()', 'DiscreteQuadraticModel.copy')
+    elif how == 'file':
+        refs['n'] = new; do('n = dimod.DiscreteQuadraticModel.from_file(d.to_file())', 'DiscreteQuadraticModel.from_file')
+    elif how == 'vectors':
+        refs['n'] = new; do('n = dimod.DiscreteQuadraticModel.from_numpy_vectors(*d.to_numpy_vectors())', 'DiscreteQuadraticModel.from_numpy_vectors')
+    else:
+        perm = list(src['labels']); r.shuffle(perm)
+        mp = dict(zip(src['labels'], perm))
+        new = dict(labels=[mp[v] for v in src['labels']], lin={mp[v]: list(x) for v, x in src['lin'].items()},
+                   quad={(mp[u], a, mp[v], b): x for (u, a, v, b), x in src['quad'].items()})
+        refs['n'] = new; do('n = d.relabel_variables(%r, inplace=False)' % (mp,), 'DiscreteQuadraticModel.relabel_variables(inplace=False)')
+    state['cls'] = 'new discrete model by ' + how
+    site = state['site']
+    edits('n', r.randint(2, 5))
+    state['site'] = site
+    return lines, state
+
+
 def graphs3(labels):
     prs = list(itertools.combinations(labels, 2))
     for bits in range(1, 1 << len(prs)):
@@ -629,6 +764,15 @@ def main():
         print('@' + json.dumps(['cqm']), flush=True)
         h, site = cqm_history(r)
         finish(h, site, 'cqm:' + h.cls)
+    for i in range(nrand // 5):
+        print('@' + json.dumps(['dqm']), flush=True)
+        lines, state = dqm_history(r)
+        n += 1
+        tick('pyseq:dqm:' + state.get('cls', 'construction'))
+        ticks['pyseq-lines'] = ticks.get('pyseq-lines', 0) + len(lines)
+        if state['bad']:
+            out.append(dict(site=state['site'], cls=state.get('cls', 'discrete model') + ' (' + state['bad'][0] + ')', what=state['bad'][1],
+                            lines=lines, expect=None, names=['d', 'n'], dqm=True))
     # small scope, exhaustive
     V3 = ['a', 'e', 0]      # three INTEGER variables (a QM) / three labels (a BQM)
     for kind in ('qm', 'bqm'):
@@ -662,7 +806,7 @@ for ln in lines:
             obj = eval(name, ns)
         except (NameError, KeyError, AttributeError):
             continue
-        bad = audit(obj)
+        bad = audit_dqm(obj) if isinstance(obj, dimod.DiscreteQuadraticModel) else audit(obj)
         assert not bad, 'after `%%s`: %%s: %%s' %% (ln, name, bad)
 '''
 
